@@ -22,6 +22,8 @@ VARIANTS = {
     # name: (compiler, flags, use hooks+seams)
     "plain":   ("gcc",   ["-O1", "-g", "-D__PTHREAD", "-DAdd_"], False),
     "verif":   ("gcc",   ["-O1", "-g", "-D__PTHREAD", "-DAdd_", "-DSLU_MT_VERIF"], True),
+    # the configuration of the repository's own CMake build: dense kernels from the BLAS (CBLAS of /repo; ?trsm_/?gemm_ from harness/ref_blas3.c)
+    "vendor":  ("gcc",   ["-O1", "-g", "-D__PTHREAD", "-DAdd_", "-DSLU_MT_VERIF", "-DUSE_VENDOR_BLAS"], True),
     "asan":    ("clang", ["-O1", "-g", "-D__PTHREAD", "-DAdd_", "-DSLU_MT_VERIF",
                           "-fsanitize=address,undefined", "-fno-sanitize=signed-integer-overflow", "-fno-omit-frame-pointer",
                           "-fno-sanitize-recover=undefined"], True),
@@ -140,6 +142,8 @@ def _harness(name, sources, variant, defines, extra_link, wrap):
     lib, cc, cflags = ensure(variant)
     out = os.path.join(os.path.dirname(lib), name)
     srcs = [s if os.path.isabs(s) else os.path.join(HARNESS, s) for s in sources]
+    if variant == "vendor":
+        srcs.append(os.path.join(HARNESS, "ref_blas3.c"))
     deps = srcs + glob.glob(os.path.join(HARNESS, "*.h")) + [lib]
     if os.path.exists(out) and all(os.path.getmtime(out) >= os.path.getmtime(d) for d in deps):
         return out
